@@ -21,9 +21,9 @@ m = {
  "setup_cmd": "./setup.sh",
  "hooks": {
   "guard": "verif",
-  "enable": "checks build with `go build -tags verif`; no hook has been needed so far: the only seam used is the existing clover.OpenWithStore(store.Store)",
+  "enable": "checks build with `go build -tags verif`; the single hook is verif_export.go (exports internal.ErrStopIteration as clover.VerifErrStopIteration); every other seam is the existing clover.OpenWithStore(store.Store)",
   "baseline_off_cmd": "python3 /verif/tools/baseline.py",
-  "source_commits": [],
+  "source_commits": ["9679162"],
   "add_only": True
  },
  "engines": [
